@@ -10,7 +10,7 @@ from hypothesis import strategies as st
 import pyttb as ttb
 
 from .. import ref
-from ..core import cell
+from ..core import Abort, cell
 from . import _c09_helpers as H
 
 PROPERTY = "C09"
@@ -24,7 +24,17 @@ RULE = (
     "skipped (outside the quantifier).  Oracle: NumPy on the dense array the data denotes (residual, fit, normal "
     "equations of the last-updated mode, least-squares step of every recorded mttkrp request), runs truncated at "
     "k = 1..maxiters from the returned guess, stdout parsing, bit-level snapshots of data and guess, and a duck-typed "
-    "recorder around the data.  Non-trivial: R >= 2, N >= 3 and a non-identity effective mode order."
+    "recorder around the data.  Non-trivial: R >= 2, N >= 3 and a non-identity effective mode order.  "
+    "Round 2 classes: (1) derived states - dense data reached by growth / permute / C-ordered input / sptensor.to_tensor / "
+    "arithmetic, sparse data with explicitly stored zeros, numpy.int64 shape entries, from tensor.to_sptensor or arithmetic, "
+    "guess = model returned by an earlier cp_als call; (2) integer-valued data held in int8/16/32/64, uint8/16 (tensor and "
+    "sptensor; float32 is left out: the bounds are float64 rounding bounds); (3) after all runs the caller overwrites every "
+    "array the first call returned and repeats the call; (4) structured guesses (disjoint supports, exactly orthogonal "
+    "integer columns, exact zeros and zero rows, a repeated column in one mode of an N >= 3 problem, integer-valued), "
+    "block-diagonal and exactly low-rank data, one mode of size 21..30; (5) stoptol 0 or log-uniform in 1e-12..1, "
+    "printitn in {-5,-1,0,1,2,3,7,1000}, data magnitude 1e-6..1e6.  Instances where the alternating iteration itself breaks "
+    "down (a singular least-squares step, or a component annihilated up to rounding - diagnosed in NumPy from the recorded "
+    "factor matrices) are counted as skipped, as is sparse all-singleton data with 'nvecs' (rejected by design)."
 )
 ASSUMPTIONS = [
     "bulk numeric content (factors, noise, masks, given guesses) is expanded by np.random.default_rng from integer seeds "
@@ -63,7 +73,13 @@ def _sparse_nvecs_all_singleton(case):
     return _sparse_nvecs(case) and all(int(s) == 1 for s in case["shape"])
 
 
+def _sparse_int_nvecs(case):
+    """sptensor holding integer-dtype values, guess = 'nvecs': sptensor.nvecs builds the Gram matrix in that dtype"""
+    return _sparse_nvecs(case) and case.get("dtype", "float64") in H.INT_RANGE
+
+
 PREDICATES = {
+    "sparse_int_nvecs": _sparse_int_nvecs,
     "sparse_nvecs_complex": _sparse_nvecs_complex,
     "sparse_nvecs_singleton": _sparse_nvecs_singleton,
     "sparse_nvecs_all_singleton": _sparse_nvecs_all_singleton,
@@ -86,6 +102,17 @@ def _shape_for_rank(draw, tier, R, N):
             shape.append(1)
         else:
             shape.append(draw(st.integers(lo, max(lo, hi))))
+    if draw(st.integers(0, 9)) == 0:
+        # one mode above 20 (ARPACK's default subspace size: tensor.nvecs / sptensor.nvecs change regime there), others small
+        k = draw(st.integers(0, N - 1))
+        shape = [min(n, max(lo, 3)) for n in shape]
+        shape[k] = draw(st.integers(21, 30))
+        while ref.prod(shape) > cap:
+            cand = [i for i in range(N) if i != k and shape[i] > lo]
+            if not cand:
+                break
+            shape[max(cand, key=lambda i: shape[i])] -= 1
+        return shape
     while ref.prod(shape) > cap and max(shape) > lo:
         shape[shape.index(max(shape))] -= 1
     return shape
@@ -103,18 +130,29 @@ def _case_strategy(holder):
         else:
             noise = draw(st.sampled_from([0.0, 1e-3, 1e-2, 0.1, 1.0]))
         c = dict(shape=shape, R=R, rtrue=rtrue, noise=noise, holder=holder,
-                 data_seed=draw(st.integers(0, 10**6)), style=draw(st.sampled_from(["normal", "normal", "uniform"])))
+                 data_seed=draw(st.integers(0, 10**6)),
+                 style=draw(st.sampled_from(["normal", "normal", "uniform", "block"])),
+                 scale=draw(st.sampled_from(H.SCALES)))
+        if holder in ("tensor", "sptensor"):
+            # integer-valued data held in an integer dtype (class 2); float32 is left out: the 1e-10-level bounds of this
+            # module are float64 rounding bounds
+            c["dtype"] = draw(st.sampled_from(["float64"] * 8 + sorted(H.INT_RANGE)))
+            if c["dtype"] in H.INT_RANGE:
+                c["mag"] = draw(st.sampled_from(["small", "medium", "full"]))
+                c["scale"] = 1.0
+        if holder == "tensor":
+            c["prov"] = draw(st.sampled_from(H.PROVS_F64 if c["dtype"] == "float64" else H.PROVS_ANY))
         if holder == "sptensor":
             c["density"] = draw(st.sampled_from([1.0, 0.75, 0.5]))
             c["stored"] = draw(st.sampled_from(["sorted", "reverse", "random"]))
+            c["sp_state"] = draw(st.sampled_from(["plain", "plain", "explicit-zeros", "np-shape", "from-tensor", "halved-doubled"]))
         if holder == "sumtensor":
             c["sum_sparse"] = draw(st.booleans())
+        structured = list(H.STRUCTURED_INITS) + ["result"]
         if holder == "sumtensor":  # nvecs is documented as unsupported for sum tensors
-            inits = ["normal", "uniform", "random"]
-        elif holder == "sptensor":  # known findings C09-F1/F2 abort most sparse 'nvecs' cases: reduced rate
-            inits = ["normal", "uniform", "random"] * 3 + ["nvecs"]
+            inits = ["normal", "uniform", "random"] * 2 + structured
         else:
-            inits = ["normal", "uniform", "random", "nvecs"]
+            inits = ["normal", "uniform", "random", "nvecs"] * 2 + structured
         c["init"] = draw(st.sampled_from(inits))
         c["init_seed"] = draw(st.integers(0, 10**6))
         c["init_weights"] = draw(st.sampled_from(["unit", "unit", "unit", "nonunit"]))
@@ -127,9 +165,9 @@ def _case_strategy(holder):
             c["optdims"] = list(draw(st.permutations(range(N))))[:k]
         c["form"] = draw(st.sampled_from(["list", "array", "tuple"]))
         c["maxiters"] = draw(st.integers(1, 6 if tier == "quick" else 8))
-        c["stoptol"] = draw(st.sampled_from([0.0, 1e-4, 1e-2, 0.5]))
+        c["stoptol"] = draw(H.STOPTOLS)
         c["fixsigns"] = draw(st.booleans())
-        c["printitn"] = draw(st.integers(0, 3))
+        c["printitn"] = draw(H.PRINTITNS)
         return c
 
     return strat
@@ -150,7 +188,50 @@ def _form(v, form):
 # --------------------------------------------------------------------------
 
 
-def _model_ok(ctx, M, shape, R, tag):
+def _breakdown(X, A, R, case, init, maxiters):
+    """True when the alternating iteration itself breaks down on this instance: some least-squares step has a singular
+    coefficient matrix (no unique solution) or a solution column that is zero up to rounding noise -- its rank-one term is
+    below 1e-12 ||X|| -- (the component is annihilated: the next coefficient matrix is singular, or noise decides).  Diagnosed with NumPy from the factor matrices of every recorded MTTKRP request.  Such
+    instances are outside the domain of the property (its rank condition excludes singular subproblems); exact
+    cancellation with integer-valued data and structured guesses produces them."""
+    rec = H.Recorder(X)
+    try:
+        _run(rec, R, case, init, maxiters, 0.0, 0)
+    except Exception:  # noqa: BLE001
+        pass
+    for n, U in rec.calls:
+        if not all(np.all(np.isfinite(u)) for u in U):
+            return False
+        try:
+            Y = H.gram_except(U, n)
+            sv = np.linalg.svd(Y, compute_uv=False)
+            if sv[0] == 0 or sv[-1] <= 1e-12 * sv[0]:
+                return True
+            B = np.linalg.solve(Y.T, H.mttkrp_ref(A, U, n).T).T
+        except Exception:  # noqa: BLE001
+            return True
+        # norm of the rank-one term each solution column contributes, against the norm of the data
+        cn = np.sqrt(np.sum(B * B, axis=0)) * np.sqrt(np.abs(np.diag(Y)))
+        if np.any(cn <= 1e-12 * np.sqrt(H.sq(A))):
+            return True
+    return False
+
+
+def _guarded(ctx, what, diag, *args):
+    """_run under ctx.sut, except that a failure on an instance where ALS itself breaks down ends the case unjudged"""
+    try:
+        return _run(*args)
+    except (np.linalg.LinAlgError, FloatingPointError, ValueError):
+        if diag():
+            ctx.skip("als-breakdown:singular-or-annihilating-step")
+        with ctx.sut(what):
+            raise
+    except Exception:  # noqa: BLE001
+        with ctx.sut(what):
+            raise
+
+
+def _model_ok(ctx, M, shape, R, tag, diag=None):
     ctx.require(isinstance(M, ttb.ktensor), f"{tag}returns-ktensor", type(M).__name__)
     fms = M.factor_matrices
     ctx.require(isinstance(fms, list) and len(fms) == len(shape), f"{tag}model-order", len(fms) if isinstance(fms, list) else type(fms))
@@ -158,7 +239,10 @@ def _model_ok(ctx, M, shape, R, tag):
     w = M.weights
     ok = ok and isinstance(w, np.ndarray) and w.shape == (R,) and w.dtype.kind == "f"
     ctx.require(ok, f"{tag}model-rank-and-shape", [getattr(f, "shape", None) for f in fms] + [getattr(w, "shape", None)])
-    ctx.require(all(np.all(np.isfinite(f)) for f in fms) and np.all(np.isfinite(w)), f"{tag}model-finite")
+    finite = all(np.all(np.isfinite(f)) for f in fms) and np.all(np.isfinite(w))
+    if not finite and diag is not None and diag():
+        ctx.skip("als-breakdown:singular-or-annihilating-step")
+    ctx.require(finite, f"{tag}model-finite")
 
 
 def _scale(nX, M):
@@ -233,6 +317,22 @@ def _unpack(ctx, res, tag):
 
 
 def _body(ctx, case):
+    """_body_inner; when a clause fails on an instance where the alternating iteration itself breaks down (diagnosed with
+    NumPy, see _breakdown) the case is not judged: exact or noise-level zeros then decide the result."""
+    env = {}
+    try:
+        _body_inner(ctx, case, env)
+    except Abort:
+        if not (ctx.violations and "diag" in env and env["diag"]()):
+            raise
+    else:
+        if not (ctx.violations and "diag" in env and env["diag"]()):
+            return
+    ctx.violations.clear()
+    ctx.skip("als-breakdown:singular-or-annihilating-step")
+
+
+def _body_inner(ctx, case, env):
     shape = [int(s) for s in case["shape"]]
     N, R = len(shape), int(case["R"])
     holder = case["holder"]
@@ -241,7 +341,17 @@ def _body(ctx, case):
     margin = H.unfolding_margin(A, R)
     if margin < 1e-6:
         ctx.skip("unfolding-rank-below-R")
-    init = H.build_init(case)
+    if holder == "sptensor" and case["init"] == "nvecs" and all(n == 1 for n in shape):
+        ctx.skip("sptensor.nvecs-rejects-all-singleton-shapes-by-design")
+    if case["init"] == "result":
+        # derived state (class 1): the guess is the model an earlier one-sweep fit returned (normalised, arranged,
+        # sign-fixed by the public API)
+        with ctx.sut("cp_als-producing-the-guess"):
+            with H.captured():
+                init = ttb.cp_als(X, R, init=H.build_init(dict(case, init="normal")), maxiters=1, printitn=0)[0]
+        ctx.require(isinstance(init, ttb.ktensor), "returns-ktensor", type(init).__name__)
+    else:
+        init = H.build_init(case)
     dimorder = case["dimorder"] if case["dimorder"] is not None else list(range(N))
     optdims = case["optdims"] if case["optdims"] is not None else list(range(N))
     seq = [d for d in dimorder if d in optdims]
@@ -251,15 +361,29 @@ def _body(ctx, case):
               "dimorder-default" if case["dimorder"] is None else ("dimorder-identity" if dimorder == sorted(dimorder) else
                                                                    "dimorder-permuted"),
               f"noise-{case['noise']}", "has-singleton" if 1 in shape else "no-singleton",
-              "distinct-sizes" if len(set(shape)) > 1 else "cubical", f"printitn-{min(printitn, 1)}")
+              "distinct-sizes" if len(set(shape)) > 1 else "cubical", f"printitn-{max(min(printitn, 1), -1)}",
+              "long-mode" if max(shape) > 20 else "short-modes", "dtype-" + case.get("dtype", "float64"), "scale-%g" % float(case.get("scale", 1.0)), "style-" + case.get("style", "normal"),
+              "stoptol-0" if stoptol == 0 else ("stoptol<1e-6" if stoptol < 1e-6 else "stoptol>=1e-6"))
+    if holder == "tensor":
+        ctx.label("prov-grown-or-C-order" if not np.asarray(X.data).flags["F_CONTIGUOUS"] else "prov-F-order")
+    if isinstance(init, ttb.ktensor):
+        zg = sum(int(np.sum((f.T @ f) == 0)) for f in init.factor_matrices)
+        ctx.label("guess-with-exact-zero-gram-entries" if zg else "guess-generic-gram")
     snapX, snapI = H.snapshot(X), H.snapshot(init)
     nX = float(np.sqrt(H.sq(A)))
 
     # ---------------------------------------------------------------- main run
-    with ctx.sut("cp_als"):
-        res, text = _run(X, R, case, init, maxiters, stoptol, printitn)
+    memo = {}
+
+    def diag():
+        if "v" not in memo:
+            memo["v"] = _breakdown(X, A, R, case, init, maxiters)
+        return memo["v"]
+
+    env["diag"] = diag
+    res, text = _guarded(ctx, "cp_als", diag, X, R, case, init, maxiters, stoptol, printitn)
     M, Minit, out = _unpack(ctx, res, "")
-    _model_ok(ctx, M, shape, R, "")
+    _model_ok(ctx, M, shape, R, "", diag)
     ctx.check(H.snapshot(X) == snapX, "data-unchanged")
     ctx.check(H.snapshot(init) == snapI, "guess-unchanged")
     _check_normal_form(ctx, M, "")
@@ -281,7 +405,7 @@ def _body(ctx, case):
     # ---------------------------------------------------------------- printed lines of the main run
     its, final, bad = H.parse_iter_lines(text)
     ctx.check(not bad, "printed-lines-parse", bad[:2])
-    if printitn == 0:
+    if printitn <= 0:
         ctx.check(text.strip() == "", "silent-when-printitn-0", text[:80])
     else:
         idx = [i for i, _, _ in its]
@@ -294,11 +418,12 @@ def _body(ctx, case):
     # ---------------------------------------------------------------- truncated runs from the returned guess
     fits, r2s, models = [], [], []
     for k in range(1, maxiters + 1):
-        with ctx.sut("cp_als-truncated"):
-            resk, _ = _run(X, R, case, Minit, k, 0.0, 0)
+        resk, _ = _guarded(ctx, "cp_als-truncated", diag, X, R, case, Minit, k, 0.0, 0)
         Mk, _, outk = _unpack(ctx, resk, "truncated-")
-        _model_ok(ctx, Mk, shape, R, "truncated-")
+        _model_ok(ctx, Mk, shape, R, "truncated-", diag)
         r2k, Sk = _check_reported(ctx, outk, A, Mk, is_sum, "truncated-")
+        _check_stationary(ctx, Mk, A, seq[-1], "truncated-")
+        _check_normal_form(ctx, Mk, "truncated-")
         ik = H.as_int(outk["iters"])
         ctx.check(ik == k - 1, "truncated-stoptol0-runs-all-iterations", (ik, k))
         fits.append(float(outk["fit"]))
@@ -331,8 +456,7 @@ def _body(ctx, case):
         ctx.check(iters == maxiters - 1, "stoptol0-runs-all-iterations", (iters, maxiters))
 
     # ---------------------------------------------------------------- a fully printed run
-    with ctx.sut("cp_als-printing"):
-        resp, textp = _run(X, R, case, Minit, maxiters, 0.0, 1)
+    resp, textp = _guarded(ctx, "cp_als-printing", diag, X, R, case, Minit, maxiters, 0.0, 1)
     Mp, _, outp = _unpack(ctx, resp, "printing-")
     _model_ok(ctx, Mp, shape, R, "printing-")
     _check_reported(ctx, outp, A, Mp, is_sum, "printing-")
@@ -348,16 +472,20 @@ def _body(ctx, case):
 
     # ---------------------------------------------------------------- recorded run (duck-typed data)
     rec = H.Recorder(X)
-    with ctx.sut("cp_als-recorded"):
-        resr, _ = _run(rec, R, case, init, maxiters, stoptol, 0)
+    resr, _ = _guarded(ctx, "cp_als-recorded", diag, rec, R, case, init, maxiters, stoptol, 0)
     Mr, Minit_r, outr = _unpack(ctx, resr, "recorded-")
     _model_ok(ctx, Mr, shape, R, "recorded-")
     ir = H.as_int(outr["iters"]) if isinstance(outr, dict) and "iters" in outr else None
-    ctx.check(ir == iters, "recorded-run-same-iteration-count", (ir, iters))
     # 'nvecs' recomputes the guess; with R < n - 1 it comes from ARPACK, whose unseedable random start perturbs it by
-    # eps / eigen-gap -> looser comparison for that class only
+    # eps / eigen-gap -> looser comparison for that class only, and no comparison at all when some fit change lies
+    # within 1e-5 of stoptol (the two runs may then legitimately stop at different iterations)
     arpack_guess = case["init"] == "nvecs" and any(R < n - 1 for n in shape)
-    ctx.check(H.sq(ref.den(Mr) - Dm) <= (1e-8 if arpack_guess else 1e-18) * S, "recorded-run-same-model")
+    near = arpack_guess and stoptol > 0 and any(abs(d - stoptol) <= 1e-5 for d in deltas)
+    if near:
+        ctx.label("arpack-guess-near-stop-threshold-not-compared")
+    else:
+        ctx.check(ir == iters, "recorded-run-same-iteration-count", (ir, iters))
+        ctx.check(H.sq(ref.den(Mr) - Dm) <= (1e-8 if arpack_guess else 1e-18) * S, "recorded-run-same-model")
     ns = [n for n, _ in rec.calls]
     ctx.require(ns == seq * (ir + 1 if ir is not None else 0), "mode-update-sequence",
                 f"requested modes {ns[:12]}... expected {seq} x {ir + 1 if ir is not None else '?'}")
@@ -395,6 +523,25 @@ def _body(ctx, case):
     # final data / guess snapshots after all runs
     ctx.check(H.snapshot(X) == snapX, "data-unchanged")
     ctx.check(H.snapshot(init) == snapI, "guess-unchanged")
+    # ---------------------------------------------------------------- state across calls (class 3): the caller edits
+    # everything the first call returned, in place, and asks again with the same arguments
+    fit_main = float(out["fit"])
+    for Kt in (M, Minit):
+        Kt.weights[...] = -3.0
+        for f in Kt.factor_matrices:
+            f[...] = 7.0
+    if isinstance(out.get("params"), dict):
+        for v in out["params"].values():
+            if isinstance(v, np.ndarray) and v.size:
+                v[...] = 0
+    ctx.check(H.snapshot(X) == snapX and H.snapshot(init) == snapI, "editing-the-results-leaves-data-and-guess-alone")
+    if case["init"] != "nvecs" or not any(R < n - 1 for n in shape):
+        res2, _ = _guarded(ctx, "cp_als-again", diag, X, R, case, init, maxiters, stoptol, printitn)
+        M2, _, out2 = _unpack(ctx, res2, "again-")
+        _model_ok(ctx, M2, shape, R, "again-")
+        ctx.check(H.sq(ref.den(M2) - Dm) <= 1e-18 * S and isinstance(out2, dict) and H.is_float(out2.get("fit"))
+                  and abs(float(out2["fit"]) - fit_main) <= 1e-9 * (1 + abs(fit_main)),
+                  "same-call-after-editing-the-results-gives-the-same-model")
 
 
 def printed_ok(printed, value):
